@@ -198,7 +198,10 @@ class World:
         else:
             inner = Retort(recipe=[self.provider(i) for i in b[1]])
             if len(b) > 2 and b[2] is not None:
-                Retort(recipe=[inner]).get_loader(int)      # the base retort has already served as a provider
+                try:
+                    Retort(recipe=[inner]).get_loader(int)  # the base retort has already served as a provider
+                except Exception:  # noqa: BLE001  (its recipe may well refuse int; only the use matters)
+                    pass
                 inner = inner.extend(recipe=[self.provider(i) for i in b[2]])
                 if h % 2:
                     inner = inner.replace(strict_coercion=False)
